@@ -333,7 +333,7 @@ impl Harness for AtomicHarness {
                 let p = a.acquire_producer().unwrap();
                 unsafe { p.__internal_get_ptr_to_write_cell().write([0xA5A5_A5A5_A5A5_A5A5u64; 9]) };
             }
-            sim::run(cfg.to_cfg(), dec, move || body_typed(a, p, sh2))
+            sim_run(cfg.to_cfg(), dec, move || body_typed(a, p, sh2))
         } else {
             let size = plan.p("size") as usize;
             let align = plan.p("align") as usize;
@@ -347,7 +347,7 @@ impl Harness for AtomicHarness {
             }
             let _ = &mut raw;
             let raw = Arc::new(raw);
-            sim::run(cfg.to_cfg(), dec, move || body_raw(raw, p, sh2))
+            sim_run(cfg.to_cfg(), dec, move || body_raw(raw, p, sh2))
         };
         let g = sh.lock().unwrap();
         let mut violation = None;
